@@ -134,7 +134,8 @@ func (n *node) updateMapTable(t *table, lazy bool) {
 		t.size += col.size + len(k)
 	}
 	if lazy {
-		t.size += len(t.columns)*2 + 1
+		// key, colon and space per column, a space between columns, the braces
+		t.size += len(t.columns)*3 + 1
 	} else {
 		t.size += len(t.columns) * 4
 	}
